@@ -29,8 +29,8 @@ import (
 )
 
 const (
-	caseTimeout = 20 * time.Second
-	heapLimit   = 6 << 30
+	caseTimeout = 8 * time.Second
+	heapLimit   = 3 << 30
 )
 
 // ---------------------------------------------------------------------------------------
